@@ -216,6 +216,10 @@ def layers(tier):
             # blanks are token material for q-gram tokenizers: whitespace-only strings are not empty strings
             jobs.append({'gen': {'gen': 'str', 'alpha': 'a ', 'maxlen': 4}, 'tok': spec, 'sizes': [1, 2, 3],
                          'lo': lo, 'hi': lo + 8, 'pres': pres})
+    for spec in (['qg', 2, True, False], ['qg', 1, False, False]):      # bag mode: repeated q-grams count once
+        for lo in range(0, 2 ** 5 - 1, 8):
+            jobs.append({'gen': {'gen': 'str', 'alpha': 'ab', 'maxlen': 4}, 'tok': spec, 'sizes': [1, 2, 3],
+                         'lo': lo, 'hi': lo + 8, 'pres': pres})
     for lo in range(0, 40, 8):
         jobs.append({'gen': {'gen': 'str', 'alpha': ' ,x', 'maxlen': 3}, 'tok': ['delim', [','], True], 'sizes': [1, 2],
                      'lo': lo, 'hi': lo + 8, 'pres': pres})
